@@ -272,12 +272,20 @@ Theorem slice_positions_strictly_monotone : forall (n : nat) (s e st : option Z)
   ((0 < stp)%Z -> StronglySorted lt ps) /\ ((stp < 0)%Z -> StronglySorted gt ps).
 Proof. exact slice_positions_sorted. Qed.
 
-(* a boolean mask: wrong length raises; otherwise exactly its True positions, increasing *)
+(* a boolean mask: accepted iff it has the length of the axis OR IS EMPTY (numpy accepts an
+   empty boolean array on an axis of any length: it designates nothing); every other length
+   raises; an accepted mask designates exactly its True positions, increasing.
+   (Model repair: the first conjunct used to read `length bs = n /\ ...` — np_take answered
+   None for the empty mask on a non-empty axis, which numpy does not.) *)
 Theorem mask_positions_are_true_entries : forall (bs : list bool) (n : nat) (ps : list nat),
-  (np_positions (IdxMask bs) n = Some ps <-> length bs = n /\ ps = mask_select bs (seq 0 n)) /\
+  (np_positions (IdxMask bs) n = Some ps <-> (length bs = n \/ bs = []) /\ ps = mask_select bs (seq 0 n)) /\
   (np_positions (IdxMask bs) n = Some ps ->
-     StronglySorted lt ps /\ forall i, In i ps <-> i < n /\ nth i bs false = true).
-Proof. intros bs n ps. exact (conj (mask_positions_spec bs n ps) (mask_positions_sorted bs n ps)). Qed.
+     StronglySorted lt ps /\ forall i, In i ps <-> i < n /\ nth i bs false = true) /\
+  np_positions (IdxMask []) n = Some [].
+Proof.
+  intros bs n ps.
+  exact (conj (mask_positions_spec bs n ps) (conj (mask_positions_sorted bs n ps) (mask_positions_empty n))).
+Qed.
 
 (* a list of integers: entry k designates k, or n + k when negative, in the order given,
    repetitions kept; one entry outside [-n, n) raises *)
@@ -351,15 +359,30 @@ Theorem subframe_bare_integer : forall Smp L M X (F : frame2 Smp L M X) (k : Z),
   then Err ErrDimension else Err ErrIndex.
 Proof. exact subframe2_int. Qed.
 
-(* every slice with a non-zero step and every mask of the right length is accepted *)
+(* every slice with a non-zero step and every mask of the right length — or empty (model
+   repair: that case is new) — is accepted *)
 Theorem subframe_slice_or_mask_never_raises : forall Smp L M X (F : frame2 Smp L M X),
   wf _ _ _ _ F ->
   (forall s e st, st <> Some 0%Z -> exists F', subframe2 F (IdxSlice s e st) = Ok F') /\
-  (forall bs, length bs = f_ntt F -> exists F', subframe2 F (IdxMask bs) = Ok F').
+  (forall bs, length bs = f_ntt F \/ bs = [] -> exists F', subframe2 F (IdxMask bs) = Ok F').
 Proof.
   intros Smp L M X F Hwf.
   exact (conj (fun s e st H => subframe2_slice_ok Smp L M X F s e st Hwf H)
               (fun bs H => subframe2_mask_ok Smp L M X F bs Hwf H)).
+Qed.
+
+(* the empty boolean array as index, on a frame with any number of timetraces / elements:
+   Frame.subframe gives the frame without timetraces (same probe), and
+   Frame.subframe_from_probe_elements the frame without timetraces whose probe has no element
+   (make_subprobe=True) or is unchanged; same time, examination object, metadata; no raise *)
+Theorem empty_mask_selects_nothing : forall Smp L M X (F : frame2 Smp L M X) (mk : bool),
+  wf _ _ _ _ F ->
+  subframe2 F (IdxMask []) = Ok (mkFrame2 [] (f_ns F) [] [] (f_probe F) (f_exam F) (f_meta F) 0) /\
+  sub_elements2 F (IdxMask []) mk =
+    Ok (mkFrame2 [] (f_ns F) [] [] (if mk then [] else f_probe F) (f_exam F) (f_meta F) 0).
+Proof.
+  intros Smp L M X F mk Hwf.
+  exact (conj (subframe2_empty_mask Smp L M X F Hwf) (sub_elements2_empty_mask Smp L M X F mk Hwf)).
 Qed.
 
 (* subframe_from_probe_elements(idx, make_subprobe=True), E = np.arange(numelements)[idx]:
@@ -594,6 +617,7 @@ Example ex_positions :
   np_positions (IdxSlice (Some 0%Z) (Some 3%Z) (Some 0%Z)) 4 = None /\
   np_positions (IdxMask [true; false; true; false]) 4 = Some [0; 2] /\
   np_positions (IdxMask [true; false; true]) 4 = None /\
+  np_positions (IdxMask []) 4 = Some [] /\
   np_positions (IdxList [2; -4; 2]%Z) 4 = Some [2; 0; 2] /\
   np_positions (IdxList [2; 4]%Z) 4 = None.
 Proof. vm_compute. repeat split; reflexivity. Qed.
@@ -614,7 +638,12 @@ Example ex_sub_elements :
   res_view (sub_elements2 ex_fmc4 (IdxList [2; 4]%Z) true) = Err ErrIndex /\
   res_view (sub_elements2 ex_fmc4 (IdxSlice None None (Some 0%Z)) false) = Err ErrValue /\
   res_view (subframe2 ex_fmc4 (IdxList [0; -16]%Z)) = Err ErrValue /\
-  res_view (subframe2 ex_fmc4 (IdxInt 3%Z)) = Err ErrDimension.
+  res_view (subframe2 ex_fmc4 (IdxInt 3%Z)) = Err ErrDimension /\
+  (* the empty boolean array: no timetrace; no element / the four elements *)
+  res_view (subframe2 ex_fmc4 (IdxMask [])) = Ok ([], [], [], ex_labels, 7) /\
+  res_view (sub_elements2 ex_fmc4 (IdxMask []) true) = Ok ([], [], [], [], 7) /\
+  res_view (sub_elements2 ex_fmc4 (IdxMask []) false) = Ok ([], [], [], ex_labels, 7) /\
+  res_view (subframe2 ex_fmc4 (IdxMask [true])) = Err ErrIndex.
 Proof. vm_compute. repeat split; reflexivity. Qed.
 
 (* premises of fmc_subaperture_is_fmc / hmc_subaperture_monotone_is_hmc / expand_half_matrix_is_fmc *)
